@@ -384,10 +384,33 @@ Proof. intros s n. unfold stats_update, same_cfg; destruct (crznum s >? FSM_MAX_
 Lemma ensure_fields : forall s z, bm (ensure_size s z) = bm s /\ same_cfg s (ensure_size s z).
 Proof. intros s z. unfold ensure_size, same_cfg; destruct (fsize s >=? z); repeat split. Qed.
 
+(* a region that was marked allocated and - the file could not be extended for IWFSM_SOLID_ALLOCATED_SPACE - given back
+   (fixes/fsm-solid-rollback.diff, 7b9f72c) *)
+Definition given_back (s s' : fsm) (off olen : Z) : Prop :=
+  exists s4, allocated_from s s4 off olen /\ s' = snd (blk_deallocate s4 off olen).
+(* how a request served from a free extent ends: the region is allocated (rc 0; or an error AFTER the fact: the sync error of
+   a5711d1, or - code before 7b9f72c - the size limit), or it has been given back (size limit, code after 7b9f72c) *)
+Definition na_outcome (s : fsm) (rc : Z) (s' : fsm) (off olen : Z) : Prop :=
+  ((rc = 0 \/ rc = IWFS_ERROR_NOT_MMAPED \/ (rc = FSM_E_MAXOFF /\ fx_solid (vr s) = false)) /\ allocated_from s s' off olen) \/
+  (rc = FSM_E_MAXOFF /\ fx_solid (vr s) = true /\ given_back s s' off olen).
+
+Lemma solid_cases : forall s s' o n, allocated_from s s' o n ->
+  (allocated_from s (solid s' o n) o n /\ (solid_rc s' o n = 0 \/ (solid_rc s' o n = FSM_E_MAXOFF /\ fx_solid (vr s) = false))) \/
+  (solid_rc s' o n = FSM_E_MAXOFF /\ fx_solid (vr s) = true /\ given_back s (solid s' o n) o n).
+Proof.
+  intros s s' o n H. assert (Hv : vr s' = vr s) by (destruct H as (_ & (V & _) & _); exact V).
+  unfold solid, solid_rc. rewrite Hv. destruct (ensure_ok s' (solid_sz s' o n)).
+  - left. split; [|left; reflexivity]. destruct H as (I & C & H). destruct (ensure_fields s' (solid_sz s' o n)) as [B C2].
+    split; [apply Inv_ensure_size; exact I|]. split; [eapply same_cfg_trans; eassumption|]. rewrite B. exact H.
+  - destruct (fx_solid (vr s)) eqn:E.
+    + right. split; [reflexivity|]. split; [reflexivity|]. exists s'. split; [exact H|reflexivity].
+    + left. split; [exact H|right; split; reflexivity].
+Qed.
+
 Theorem blk_allocate_na_found : forall fuel s length_blk offset_blk opts ovr nl no,
   Inv s -> 0 < length_blk -> find_matching s offset_blk length_blk = Some (nl, no) ->
   let '(rc, s', off, olen) := blk_allocate_na fuel s length_blk offset_blk opts ovr in
-  (rc = 0 \/ rc = IWFS_ERROR_NOT_MMAPED \/ rc = FSM_E_MAXOFF) /\ off = no /\ length_blk <= olen /\ allocated_from s s' off olen /\
+  na_outcome s rc s' off olen /\ off = no /\ length_blk <= olen /\
   (has opts IWFSM_ALLOC_NO_OVERALLOCATE = true -> olen = length_blk).
 Proof.
   intros fuel s length_blk offset_blk opts ovr nl no Hi Hlen Hfm.
@@ -403,7 +426,7 @@ Proof.
             let rc := if (rc =? 0) && has opts IWFSM_SOLID_ALLOCATED_SPACE then solid_rc s4 no olen else rc in
             let rc' := if (rc =? 0) && has opts IWFSM_SYNC_BMAP && mmap_all (vr s) && negb (fx_sync (vr s))
                        then IWFS_ERROR_NOT_MMAPED else rc in
-            (rc' = 0 \/ rc' = IWFS_ERROR_NOT_MMAPED \/ rc' = FSM_E_MAXOFF) /\ no = no /\ length_blk <= olen /\ allocated_from s s5 no olen).
+            na_outcome s rc' s5 no olen /\ no = no /\ length_blk <= olen).
   { intros s2 olen Hs2 Hol Hon Hlo.
     pose proof (carve_tail s no nl olen Hi Hin Hol Hon) as Hc. rewrite <- Hs2 in Hc.
     pose proof Hc as (Hfr & _ & _). pose proof (frame_same_cfg _ _ Hfr) as Hcfg2. destruct Hfr as (F1 & F2 & F3 & _).
@@ -419,19 +442,17 @@ Proof.
     assert (H4 : Inv s4 /\ bm s4 = bm s3 /\ same_cfg s3 s4).
     { unfold s4. destruct (negb (has opts IWFSM_ALLOC_NO_STATS)); [|split; [exact Hinv|split; [reflexivity|apply same_cfg_refl]]].
       split; [apply Inv_stats; exact Hinv|apply stats_fields]. }
-    set (s5 := if has opts IWFSM_SOLID_ALLOCATED_SPACE then solid s4 no olen else s4).
-    assert (H5 : Inv s5 /\ bm s5 = bm s4 /\ same_cfg s4 s5).
-    { unfold s5. destruct (has opts IWFSM_SOLID_ALLOCATED_SPACE); [|split; [tauto|split; [reflexivity|apply same_cfg_refl]]]. unfold solid.
-      destruct (ensure_ok s4 (solid_sz s4 no olen)); [|split; [tauto|split; [reflexivity|apply same_cfg_refl]]].
-      split; [apply Inv_ensure_size; tauto|apply ensure_fields]. }
-    split.
-    { unfold solid_rc. destruct (has opts IWFSM_SOLID_ALLOCATED_SPACE); [destruct (ensure_ok s4 (solid_sz s4 no olen))|];
-        simpl; destruct (has opts IWFSM_SYNC_BMAP && mmap_all (vr s) && negb (fx_sync (vr s))); auto. }
-    split; [reflexivity|]. split; [exact Hlo|].
-    unfold allocated_from. destruct H4 as (_ & A4 & C4). destruct H5 as (I5 & A5 & C5). destruct B3 as (A3 & C3).
-    split; [exact I5|]. split; [eapply same_cfg_trans; [exact C3|eapply same_cfg_trans; eassumption]|].
-    split; [lia|]. split; [lia|]. split; [lia|].
-    split; [intros i Hi2; apply R4; lia|rewrite A5, A4; exact A3]. }
+    assert (Ha4 : allocated_from s s4 no olen).
+    { destruct H4 as (I4 & A4 & C4). destruct B3 as (A3 & C3). unfold allocated_from.
+      split; [exact I4|]. split; [eapply same_cfg_trans; eassumption|]. split; [lia|]. split; [lia|]. split; [lia|].
+      split; [intros i Hi2; apply R4; lia|rewrite A4; exact A3]. }
+    split; [|split; [reflexivity|exact Hlo]]. unfold na_outcome.
+    destruct (has opts IWFSM_SOLID_ALLOCATED_SPACE); cbv beta iota zeta.
+    - destruct (solid_cases s s4 no olen Ha4) as [[Ha5 [Hr|[Hr Hfx]]]|(Hr & Hfx & Hg)]; rewrite Hr.
+      + left. split; [|exact Ha5]. simpl. destruct (has opts IWFSM_SYNC_BMAP && mmap_all (vr s) && negb (fx_sync (vr s))); auto.
+      + left. split; [|exact Ha5]. simpl. right; right. split; [reflexivity|exact Hfx].
+      + right. simpl. split; [reflexivity|]. split; [exact Hfx|exact Hg].
+    - left. split; [|exact Ha4]. simpl. destruct (has opts IWFSM_SYNC_BMAP && mmap_all (vr s) && negb (fx_sync (vr s))); auto. }
   cbv beta zeta.
   destruct (nl >? length_blk) eqn:Egt.
   - apply Z.gtb_lt in Egt.
@@ -439,23 +460,23 @@ Proof.
     + specialize (Hshape (del_fbk2 s (nl, no)) nl). replace (nl >? nl) with false in Hshape by lia.
       specialize (Hshape eq_refl ltac:(lia) ltac:(lia) ltac:(lia)).
       destruct (set_bit_status (del_fbk2 s (nl, no)) no nl true false (strict s)) as [rc s3].
-      destruct Hshape as (H1 & H2 & H3 & H4). split; [exact H1|]. split; [exact H2|]. split; [exact H3|]. split; [exact H4|].
+      destruct Hshape as (H1 & H2 & H3). split; [exact H1|]. split; [exact H2|]. split; [exact H3|].
       intros Hno. rewrite Hno in Eov. discriminate.
     + specialize (Hshape (put_fbk (del_fbk2 s (nl, no)) (no + length_blk) (nl - length_blk)) length_blk).
       replace (nl >? length_blk) with true in Hshape by lia.
       specialize (Hshape eq_refl ltac:(lia) ltac:(lia) ltac:(lia)).
       destruct (set_bit_status _ no length_blk true false (strict s)) as [rc s3].
-      destruct Hshape as (H1 & H2 & H3 & H4). split; [exact H1|]. split; [exact H2|]. split; [exact H3|]. split; [exact H4|]. reflexivity.
+      destruct Hshape as (H1 & H2 & H3). split; [exact H1|]. split; [exact H2|]. split; [exact H3|]. reflexivity.
     + specialize (Hshape (put_fbk (del_fbk2 s (nl, no)) (no + length_blk) (nl - length_blk)) length_blk).
       replace (nl >? length_blk) with true in Hshape by lia.
       specialize (Hshape eq_refl ltac:(lia) ltac:(lia) ltac:(lia)).
       destruct (set_bit_status _ no length_blk true false (strict s)) as [rc s3].
-      destruct Hshape as (H1 & H2 & H3 & H4). split; [exact H1|]. split; [exact H2|]. split; [exact H3|]. split; [exact H4|]. reflexivity.
+      destruct Hshape as (H1 & H2 & H3). split; [exact H1|]. split; [exact H2|]. split; [exact H3|]. reflexivity.
   - rewrite Z.gtb_ltb in Egt. apply Z.ltb_ge in Egt. assert (nl = length_blk) by lia. subst nl. cbv beta iota zeta.
     specialize (Hshape (del_fbk2 s (length_blk, no)) length_blk). replace (length_blk >? length_blk) with false in Hshape by lia.
     specialize (Hshape eq_refl ltac:(lia) ltac:(lia) ltac:(lia)).
     destruct (set_bit_status _ no length_blk true false (strict s)) as [rc s3].
-    destruct Hshape as (H1 & H2 & H3 & H4). split; [exact H1|]. split; [exact H2|]. split; [exact H3|]. split; [exact H4|]. reflexivity.
+    destruct Hshape as (H1 & H2 & H3). split; [exact H1|]. split; [exact H2|]. split; [exact H3|]. reflexivity.
 Qed.
 
 (* ---------------------------------------------------------------- _fsm_blk_deallocate_lw *)
@@ -889,8 +910,6 @@ Proof.
   split; [apply Inv_ensure_size; exact I|]. split; [eapply same_cfg_trans; eassumption|]. rewrite B. exact H.
 Qed.
 
-Lemma allocated_from_solid : forall s s' o n a b, allocated_from s s' o n -> allocated_from s (solid s' a b) o n.
-Proof. intros s s' o n a b H. unfold solid. destruct (ensure_ok s' (solid_sz s' a b)); [apply allocated_from_ensure|]; exact H. Qed.
 
 Lemma blk_allocate_al_unfold : forall fuel s length_blk opts,
   blk_allocate_al fuel s length_blk opts =
@@ -910,9 +929,11 @@ Proof. intros fuel; destruct fuel; reflexivity. Qed.
 Definition alloc_outcome (s : fsm) (length_blk opts : Z) (r : aret) : Prop :=
   let '(rc, s', off, olen) := r in
   ((rc = IWFS_ERROR_NO_FREE_SPACE \/ rc = FSM_IW_ERROR_OVERFLOW) /\ s' = s) \/
-  ((rc = 0 \/ rc = IWFS_ERROR_NOT_MMAPED \/ rc = FSM_E_MAXOFF) /\ allocated_from s s' off olen /\ length_blk <= olen /\
+  ((rc = 0 \/ rc = IWFS_ERROR_NOT_MMAPED \/ (rc = FSM_E_MAXOFF /\ fx_solid (vr s) = false)) /\ allocated_from s s' off olen /\ length_blk <= olen /\
    (has opts IWFSM_ALLOC_NO_OVERALLOCATE = true -> olen = length_blk) /\
-   (has opts IWFSM_ALLOC_PAGE_ALIGNED = true -> off mod shr (aunit s) (bpow s) = 0 /\ olen = length_blk)).
+   (has opts IWFSM_ALLOC_PAGE_ALIGNED = true -> off mod shr (aunit s) (bpow s) = 0 /\ olen = length_blk)) \/
+  (* solid space the file cannot be extended for, code after 7b9f72c: the region has been given back *)
+  (rc = FSM_E_MAXOFF /\ fx_solid (vr s) = true /\ given_back s s' off olen).
 
 Theorem blk_allocate_noext : forall s length_blk hint opts ovr, Inv s -> WF s -> 0 < length_blk ->
   has opts IWFSM_ALLOC_NO_EXTEND = true ->
@@ -927,17 +948,22 @@ Proof.
     destruct H as [[-> ->]|(-> & -> & Ha & Hm & _)].
     + rewrite Z.eqb_refl, Hne. left. split; [left; reflexivity|reflexivity].
     + replace (0 =? IWFS_ERROR_NO_FREE_SPACE) with false by reflexivity. simpl andb.
-      destruct (has opts IWFSM_SOLID_ALLOCATED_SPACE); right.
-      * split; [unfold solid_rc; destruct (ensure_ok s1 (solid_sz s1 off length_blk)); auto|].
-        split; [apply allocated_from_solid; exact Ha|]. split; [lia|]. split; [reflexivity|].
-        intros _. split; [exact Hm|reflexivity].
-      * split; [left; reflexivity|]. split; [exact Ha|]. split; [lia|]. split; [reflexivity|].
+      destruct (has opts IWFSM_SOLID_ALLOCATED_SPACE).
+      * destruct (solid_cases s s1 off length_blk Ha) as [[Ha5 [Hr|[Hr Hfx]]]|(Hr & Hfx & Hg)]; rewrite Hr.
+        -- right; left. split; [left; reflexivity|]. split; [exact Ha5|]. split; [lia|]. split; [reflexivity|].
+           intros _. split; [exact Hm|reflexivity].
+        -- right; left. split; [right; right; split; [reflexivity|exact Hfx]|]. split; [exact Ha5|]. split; [lia|]. split; [reflexivity|].
+           intros _. split; [exact Hm|reflexivity].
+        -- right; right. split; [reflexivity|]. split; [exact Hfx|exact Hg].
+      * right; left. split; [left; reflexivity|]. split; [exact Ha|]. split; [lia|]. split; [reflexivity|].
         intros _. split; [exact Hm|reflexivity].
   - destruct (find_matching s hint length_blk) as [[nl no]|] eqn:Efm.
     + pose proof (blk_allocate_na_found RESIZE_FUEL s length_blk hint opts ovr nl no Hi Hlen Efm) as H.
       destruct (blk_allocate_na RESIZE_FUEL s length_blk hint opts ovr) as [[[rc s'] off] olen].
-      destruct H as (H1 & H2 & H3 & H4 & H5). right. split; [exact H1|]. split; [exact H4|]. split; [exact H3|]. split; [exact H5|].
-      intros H. congruence.
+      destruct H as (H1 & H2 & H3 & H5). destruct H1 as [(Hrc & H4)|(Hrc & Hfx & Hg)].
+      * right; left. split; [exact Hrc|]. split; [exact H4|]. split; [exact H3|]. split; [exact H5|].
+        intros H. congruence.
+      * right; right. split; [exact Hrc|]. split; [exact Hfx|exact Hg].
     + rewrite blk_allocate_na_unfold, Efm, Hne. left. split; [left; reflexivity|reflexivity].
 Qed.
 
@@ -970,7 +996,7 @@ Qed.
 Theorem allocate_noext : forall s len addr opts ovr, Inv s -> WF s -> len < 2 ^ 62 ->
   has opts IWFSM_ALLOC_NO_EXTEND = true ->
   let '(rc, s', a, l) := allocate s len addr opts ovr in
-  (rc <> 0 /\ (s' = s \/ exists off olen, allocated_from s s' off olen)) \/
+  (rc <> 0 /\ (s' = s \/ (exists off olen, allocated_from s s' off olen) \/ (exists off olen, given_back s s' off olen))) \/
   (rc = 0 /\ exists off olen, allocated_from s s' off olen /\ a = off * 2 ^ bpow s /\ l = olen * 2 ^ bpow s /\
      len <= l /\ (has opts IWFSM_ALLOC_NO_OVERALLOCATE = true -> l = IW_ROUNDUP len (pow2 (bpow s))) /\
      (has opts IWFSM_ALLOC_PAGE_ALIGNED = true -> a mod aunit s = 0)).
@@ -983,11 +1009,12 @@ Proof.
     set (lb := shr (IW_ROUNDUP len (pow2 (bpow s))) (bpow s)) in *.
     pose proof (blk_allocate_noext s lb (blk_of s addr) opts ovr Hi Hwf Hlb Hne) as H.
     destruct (blk_allocate s lb (blk_of s addr) opts ovr) as [[[rc s1] off] nlen]. unfold alloc_outcome in H.
-    destruct H as [[[-> | ->] ->]|(Hrc & Ha & Hge & Hno & Hpa)].
+    destruct H as [[[-> | ->] ->]|[(Hrc & Ha & Hge & Hno & Hpa)|(-> & Hfx & Hg)]].
     + left. split; [discriminate|left; reflexivity].
     + left. split; [discriminate|left; reflexivity].
     + destruct (rc =? 0) eqn:Erc.
-      * apply Z.eqb_eq in Erc. subst rc. right. split; [reflexivity|]. exists off, nlen.
+      2:{ apply Z.eqb_neq in Erc. left. split; [exact Erc|right; left; exists off, nlen; exact Ha]. }
+      apply Z.eqb_eq in Erc. subst rc. right. split; [reflexivity|]. exists off, nlen.
         split; [exact Ha|]. rewrite !shl_mul by lia. split; [reflexivity|]. split; [reflexivity|].
         assert (Hp : 0 < 2 ^ bpow s) by (apply Z.pow_pos_nonneg; lia).
         split; [nia|]. split.
@@ -1000,7 +1027,7 @@ Proof.
            replace (q * 2 ^ (j - bpow s) * 2 ^ bpow s) with (q * 2 ^ j)
              by (replace j with ((j - bpow s) + bpow s) at 1 by lia; rewrite Z.pow_add_r by lia; ring).
            apply Z.mod_mul. apply Z.pow_nonzero; lia.
-      * apply Z.eqb_neq in Erc. left. split; [exact Erc|right; exists off, nlen; exact Ha].
+    + replace (FSM_E_MAXOFF =? 0) with false by reflexivity. left. split; [discriminate|right; right; exists off, nlen; exact Hg].
 Qed.
 
 (* ---- _fsm_deallocate *)
@@ -1082,7 +1109,7 @@ Proof.
       [split; [exact Hg|apply same_cfg_refl]|].
     pose proof (blk_allocate_noext s nb ab opts ovr Hi Hwf Hpos Hne) as H.
     destruct (blk_allocate s nb ab opts ovr) as [[[rc s1] naddr] sp]. unfold alloc_outcome in H.
-    destruct H as [[[-> | ->] ->]|(Hrc & Ha & _)].
+    destruct H as [[[-> | ->] ->]|[(Hrc & Ha & _)|(-> & _ & (s4 & Ha4 & ->))]].
     + simpl. split; [exact Hg|apply same_cfg_refl].
     + simpl. split; [exact Hg|apply same_cfg_refl].
     + destruct (negb (rc =? 0)) eqn:Erc.
@@ -1100,6 +1127,7 @@ Proof.
         pose proof (blk_deallocate_good s1' ab ob Hg1 (live_after_alloc s s1' naddr sp ab ob Ha' Hl)) as H.
         destruct (blk_deallocate s1' ab ob) as [rc2 s2]. destruct H as (-> & H2 & H3 & _).
         simpl. split; [exact H2|eapply same_cfg_trans; eassumption].
+    + replace (negb (FSM_E_MAXOFF =? 0)) with true by reflexivity. simpl. apply (release_allocated_good s s4 naddr sp Hg Ha4).
 Qed.
 
 (* ---- _fsm_sync, _fsm_close (no trim) + reopen *)
@@ -1118,7 +1146,7 @@ Proof.
   rewrite Ec1, Ec2.
   set (s0 := mkFsm (bm s) [] 0 0 (bmoff s) (bmlen s) (hdrlen s) (bpow s) (aunit s) (fsize s) (p_crzsum s) (p_crznum s)
                    (p_crzsum s) (p_crznum s) (bmoff s) (bmlen s) (maxoff s) st (mkVariant (fx_lfbk (vr s)) (fx_strict (vr s)) (fx_sync (vr s)) (fx_short (vr s))
-                   (fx_realloc (vr s)) (fx_hint (vr s)) (fx_leak (vr s)) (fx_recheck (vr s)) mm)).
+                   (fx_realloc (vr s)) (fx_hint (vr s)) (fx_leak (vr s)) (fx_recheck (vr s)) (fx_solid (vr s)) mm)).
   destruct (load_fsm_spec s0 Hlen Hu32) as (F & S & M & L).
   pose proof (frame_same_cfg _ _ F) as (C1 & C2 & C3 & C4 & _). destruct F as (B1 & _).
   split; [|split].
@@ -1151,8 +1179,8 @@ Proof.
   - destruct Hc as [Hne Hlen]. unfold step.
     pose proof (allocate_noext s len hint opts ovr Hi Hwf Hlen Hne) as H.
     destruct (allocate s len hint opts ovr) as [[[rc s'] a] l]. simpl.
-    destruct H as [(_ & [->|(off & olen & (I & C & _))])|(_ & off & olen & (I & C & _) & _)];
-      [exact Hg|apply (good_cfg s); assumption|apply (good_cfg s); assumption].
+    destruct H as [(_ & [->|[(off & olen & (I & C & _))|(off & olen & (s4 & Ha4 & ->))]])|(_ & off & olen & (I & C & _) & _)];
+      [exact Hg|apply (good_cfg s); assumption|apply (release_allocated_good s s4 off olen Hg Ha4)|apply (good_cfg s); assumption].
   - destruct Hc as (Hne & Hnl & Hl). unfold step. apply reallocate_good; assumption.
   - unfold step. pose proof (deallocate_good s addr len Hg Hc) as H.
     destruct (deallocate s addr len) as [rc s']. simpl. tauto.
@@ -1190,12 +1218,12 @@ Proof.
   apply all_range_spec; [lia|lia|lia|exact H5].
 Qed.
 
-Definition v_current : variant := mkVariant false false false false false false false false false.
-Definition v_fixed : variant := mkVariant true true true true true true true true false.
+Definition v_current : variant := mkVariant false false false false false false false false false false.
+Definition v_fixed : variant := mkVariant true true true true true true true true true false.
 (* /repo at the time of the deepening round: the four fixes of the earlier rounds committed, the three of this round not yet *)
-Definition v_head : variant := mkVariant true true true true false false false false false.
+Definition v_head : variant := mkVariant true true true true false false false false false false.
 (* /repo in round 7: the three fixes of the deepening round committed (03fe895 ed23db4 cd47e17), fsm-realloc-recheck.diff not yet *)
-Definition v_head7 : variant := mkVariant true true true true true true true false false.
+Definition v_head7 : variant := mkVariant true true true true true true true false false false.
 Definition fresh (v : variant) (strict' : bool) : fsm := snd (open_new v 6 0 0 strict').
 (* six 4-block regions, then exactly the free tail (which is the cached extent), then two adjacent releases *)
 Definition lfbk_witness : list op :=
@@ -1316,7 +1344,7 @@ Proof.
   apply hs_iff in Hc. destruct Hc as [Ec1 Ec2]. rewrite Ec1, Ec2.
   set (s0 := mkFsm (bm s) [] 0 0 (bmoff s) (bmlen s) (hdrlen s) (bpow s) (aunit s) (fsize s) (p_crzsum s) (p_crznum s)
                    (p_crzsum s) (p_crznum s) (bmoff s) (bmlen s) (maxoff s) st (mkVariant (fx_lfbk (vr s)) (fx_strict (vr s)) (fx_sync (vr s)) (fx_short (vr s))
-                   (fx_realloc (vr s)) (fx_hint (vr s)) (fx_leak (vr s)) (fx_recheck (vr s)) mm)).
+                   (fx_realloc (vr s)) (fx_hint (vr s)) (fx_leak (vr s)) (fx_recheck (vr s)) (fx_solid (vr s)) mm)).
   destruct (load_fsm_spec s0 Hlen Hu32) as (F & _ & M & _). destruct F as (B1 & B2 & B3 & B4 & B5 & _).
   split; [exact B1|]. split; [exact B2|]. split; [exact B3|]. split; [exact B4|]. split; [exact B5|]. exact M.
 Qed.
@@ -2022,7 +2050,10 @@ Qed.
 Definition backed (s' : fsm) (off olen : Z) : Prop := shl off (bpow s') + shl olen (bpow s') <= fsize s'.
 
 Lemma geo_solid : forall s o n, geo s (solid s o n).
-Proof. intros s o n. unfold solid. destruct (ensure_ok s (solid_sz s o n)); [apply geo_ensure_size|apply geo_refl]. Qed.
+Proof.
+  intros s o n. unfold solid. destruct (ensure_ok s (solid_sz s o n)); [apply geo_ensure_size|].
+  destruct (fx_solid (vr s)); [apply geo_blk_deallocate|apply geo_refl].
+Qed.
 
 Lemma solid_backed : forall s off olen, solid_rc s off olen = 0 -> backed (solid s off olen) off olen.
 Proof.
